@@ -119,7 +119,7 @@ def run(c):
     for cat in ("1 part", ">= 2 parts", "serialiser assoc", "serialiser inst"):
         c.need(cat)
     good = []  # valid serialisations for the corruption campaign
-    obs = core.run_cases(cases)
+    obs = core.run_cases(cases, poison=("http", "multipart"))
     seen_status = set()
     same = diff = 0
     by_pair = {}
